@@ -310,10 +310,15 @@ def rule_result(r):
     ok_unpack = isinstance(first, ast.Assign) and pf.unparse(first.targets[0]) in ("(scale, background)", "scale, background") \
         and pf.unparse(first.value) in ("values[0:2]", "values[:2]")
     r.check(ok_unpack, F, "MixtureKernel.Iq", pf.unparse(first), first.lineno, "scale, background are values[0], values[1]")
+    from ..pyroles import accumulator_of
+    loop = [st for st in fn.body if isinstance(st, ast.For)][0]
+    acc = sorted(accumulator_of(fn, loop))
+    if len(acc) != 1:
+        raise AnalysisError("MixtureKernel.Iq: accumulator not unique: %s" % acc)
     e = nf.py_expr(ret.value, {})
-    s, t, b = nf.sym("scale"), nf.sym("total"), nf.sym("background")
+    s, t, b = nf.sym("scale"), nf.sym(acc[0]), nf.sym("background")
     r.check(nf.equal(e, s * t + b), F, "MixtureKernel.Iq", "return %s" % pf.unparse(ret.value), ret.lineno,
-            "must equal scale*total + background")
+            "must equal scale*<accumulated parts> + background")
 
 
 def rule_precedence(r):
